@@ -152,6 +152,7 @@ def check_pairs(U, trees, rec: Rec, cfg):
 
 def run_shard(cfg):
     rec = Rec(cfg)
+    rec.extra['first_use'] = zoo.warm_up(cfg['k'])
     U = zoo.universe(UNIV)
     idx = 0
     for n in range(1, cfg["n"] + 1):
